@@ -1388,7 +1388,9 @@ func r01_8(c *Ctx) {
 	c.check(gfn != nil || len(inlineEq) > 0, "parser.scanSegment:name", P.ipos(colon), "the field name is the text before the first colon (or the whole line)", "the field name is not chunk[:colonPos]")
 	// the too-long-name early exit must not reject valid names: bound >= max name length
 	for _, ifi := range ifsIn(ss) {
-		op, k, succ, ok := cmpConstEdge(ifi, func(v ssa.Value) bool { return v == ssa.Value(colon) })
+		// the colon position, or the length of the line (a line without a colon is a name as a whole)
+		isLineLen := isLenCallOf(isChunkV)
+		op, k, succ, ok := cmpConstEdge(ifi, func(v ssa.Value) bool { return v == ssa.Value(colon) || isLineLen(v) })
 		if !ok || (op != token.GTR && op != token.GEQ) {
 			continue
 		}
@@ -1663,6 +1665,27 @@ func r01_9(c *Ctx, part string) {
 						if edgeDominates(ifi.Block(), cnd.succWhen(cnd.Op == token.EQL), ret.Block()) {
 							exhausted = true
 						}
+					}
+				}
+				if !eof && !exhausted {
+					// the two reasons may share one return (`break` to a trailing `return false`): every path to it
+					// crosses an edge on which the line is unterminated or the data is exhausted
+					good := map[cfgEdge]bool{}
+					for _, ifi := range ifsIn(fn) {
+						for e := 0; e < 2; e++ {
+							if edgeEstablishes(ifi, e, termF) {
+								good[cfgEdge{ifi.Block(), e}] = true
+							}
+						}
+						cnd := decodeIf(ifi)
+						if cnd.Y != nil && isData(cnd.X) && (cnd.Op == token.NEQ || cnd.Op == token.EQL) {
+							if sv, isS := constString(cnd.Y); isS && sv == "" {
+								good[cfgEdge{ifi.Block(), cnd.succWhen(cnd.Op == token.EQL)}] = true
+							}
+						}
+					}
+					if len(good) > 0 && !reachesAvoiding(entryPoint(fn), ret, nil, good) {
+						exhausted = true
 					}
 				}
 				c.check(eof || exhausted, rn, P.ipos(ret), "false only for an unterminated last line or exhausted data", "Next returns false although terminated lines remain: the rest of the event is dropped")
